@@ -105,6 +105,16 @@ CLAIMS = {
          "first-two-byte comparison of the real disassembler with model and specification, and real trace lines.",
          "Hex formatting ({:x}, {:02x}) is a shared primitive of model and specification (Hcl/Util/Format.lean), compared with Rust's through the streams.",
          "Lean 4 proof (case split on instruction form, omega for field extraction) + exhaustive differential check"),
+ "C11": ("Lean theorems C11_grammar_tiers_documented / C11_grammar_ops_documented (the BinTier/NonAssoc chain and operator groups "
+         "extracted from parser.lalrpop on this run are the documented ten levels, tightest * / ... loosest ||, comparisons and "
+         "'in' not chaining), C11_model_tiers_documented (the Lean parser model uses the same table), C11_preamble_values (every "
+         "predefined name of the preamble text extracted from program.rs lexes to its CS:APP value), with Tie.Lexer (character "
+         "classes, token table) and Tie.Grammar. The lexer and expression-parser models are compared with the real lexer/parser "
+         "token by token and node by node including spans; the oracle is by construction: minimal-parenthesis, full-parenthesis "
+         "and comment/blank-laden renderings of one tree must parse identically, literals of known value must lex to it.",
+         "The LALRPOP-generated LR automaton is not modelled; the model is a precedence-climbing parser validated against it. "
+         "Statement-level grammar is tied only through the AST hook (statements_sexp) used by all program streams.",
+         "Lean 4 proof by kernel evaluation over the extracted grammar/preamble + differential correspondence + construction oracle"),
  "C12": ("Lean theorems C12_values_schedule_independent (= C01_order_independent: any two valid schedules of the same action "
          "set give identical values on every wire) and C12_loop_verdict_order_independent (two iteration orders of the same "
          "dependency graph either both report a loop or both schedule; via C10_cycle_iff). Every generated program (accepted, "
